@@ -6,14 +6,17 @@ PROP = {
              "loop, code copied to work RAM, bank switches from bank 0, serial output) advanced block by block through the real "
              "Core::run_code_block of the jit build and of the non-jit build; after EVERY step registers, IME/run state, IF/IE, "
              "DIV/TIMA (clocks delivered), LY/STAT, DMA progress, bank must agree, and all RAM every 64 steps, the frame buffer and "
-             "the captured serial output at the end.",
+             "the captured serial output at the end. Third leg: the same programs (their ROM patches travel in the line) are replayed on the "
+             "whole-machine Lean model - Core.runCodeBlockInterp / Core.update over Sys.dev (OAM DMA, timer, LCD, joypad) with the MBC1 "
+             "model - and ip, af, sp, the timer's cycle counter and the digest of BC DE HL IF IE TIMA LY STAT DMA-progress bank "
+             "run-state IME must agree after EVERY block, the RAM digest after 64 blocks and at the end, and the serial output.",
     "note": "Trusted: Lean kernel, harness, runner join across builds, hooks (Timer/DMAState verif_state). Programs never switch banks from "
             "code in the switchable bank (recorded known finding of C03) and never reach undefined opcodes.",
-    "technique": "Lean 4 congruence proof by induction over steps + per-step differential of generated programs across the two build configurations",
+    "technique": "Lean 4 congruence proof by induction over steps + three-way per-step differential of generated programs (recompiler build, interpreter build, whole-machine Lean model)",
     "level": "proof",
     "streams": [{"name": "c04", "join": True, "shards": {"quick": 2, "thorough": 16}}],
-    "modules": ["GbVerif.Model.Core"],
+    "modules": ["GbVerif.Model.Core", "GbVerif.Model.Sys", "GbVerif.Model.Cpu", "GbVerif.Model.Bus", "GbVerif.Model.Cart"],
     "rule": "120 (thorough 4000) programs x 2500 (6000) block steps; program = init (TMA/TAC/STAT/LYC/LCDC/IE random from small sets) + 6..15 fragments "
             "in a loop; non-trivial = more than 10 distinct block entry points were visited",
-    "assumptions": ["the whole-machine Lean model (devices with time composed with the CPU) is not built; device behaviour is a parameter of the theorem"],
+    "assumptions": ["the frame buffer is compared between the two builds only (the pixel pipeline is modelled separately, C15, not inside Sys)"],
 }
